@@ -111,8 +111,20 @@ func (r *rewriter) hookPass() bool {
 				return true
 			}
 			obj := sel.Obj()
-			if obj.Pkg() == nil || !strings.HasPrefix(obj.Pkg().Path(), modPrefix) {
+			if obj.Pkg() == nil {
 				return true
+			}
+			if pp := obj.Pkg().Path(); !strings.HasPrefix(pp, modPrefix) {
+				// fields of third-party types (mp4ff boxes, dash-mpd elements, ...) accessed by the
+				// module's own code are hooked as well: shared parsed structures live in them.
+				// Standard-library types are per-request objects here and are left alone.
+				first := pp
+				if k := strings.Index(pp, "/"); k >= 0 {
+					first = pp[:k]
+				}
+				if !*hookExt || !strings.Contains(first, ".") || strings.Contains(pp, "/vshim/") {
+					return true
+				}
 			}
 			tv, ok := r.info.Types[n]
 			if !ok || !tv.Addressable() {
